@@ -122,3 +122,12 @@ Print Assumptions c03_law_off_final_release.
 Print Assumptions c03_pep440_prerelease_between.
 Print Assumptions c03_flow_version_between_pep440.
 Print Assumptions c03_post_monotone_rendering.
+
+(* THE TIE OF THE MODEL'S CONSTANT TABLES TO THE SOURCE: Gen/TablesSrc.v is regenerated from /repo by tools/tables2coq.py on every run *)
+From ZV Require Import Timestamp Render Convert TablesSrc TablesTie.
+Theorem c03_preset_component_tables_as_in_source :
+  standard_core = src_components_standard_core /\ calver_core = src_components_calver_core /\ epoch_extra = src_components_epoch_extra_core /\
+  prerelease_extra = src_components_prerelease_core /\ prerelease_post_extra = src_components_prerelease_post_core /\
+  prerelease_post_dev_extra = src_components_prerelease_post_dev_core /\ build_context = src_components_build_context.
+Proof. exact component_tables_as_source. Qed.
+Print Assumptions c03_preset_component_tables_as_in_source.
